@@ -9,9 +9,31 @@ IMPORTS = ["From MuxV Require Import Base.Num Base.FInst Model.AirfoilBlend Mode
 FUNCS = ["get_CL", "get_CD", "get_Cm", "get_CLa", "get_aL0", "get_CLRe", "get_CLM"]
 
 
+def functional_airfoil(rng):
+    """an airfoil given by functions with Reynolds- and Mach-dependence (airfoil_db type 'functional'): the sensitivities CL,Re and CL,M
+    are then non-zero and different from each other"""
+    a0, aL0, kRe, cd0, cm0 = rng.uniform(5.6, 6.6), rng.uniform(-0.06, 0.0), rng.uniform(0.02, 0.08), rng.uniform(0.005, 0.01), rng.uniform(-0.08, 0.0)
+
+    def CL(**kw):
+        al, Re, M = kw.get("alpha", 0.0), kw.get("Rey", 1e6), kw.get("Mach", 0.0)
+        df, cf = kw.get("trailing_flap_deflection", 0.0), kw.get("trailing_flap_fraction", 0.0)
+        return a0 * (al - aL0 + 0.6 * cf * df) * (1.0 + kRe * np.log10(np.asarray(Re, dtype=float) / 1e6)) / np.sqrt(1.0 - np.asarray(M, dtype=float) ** 2)
+
+    def CD(**kw):
+        return cd0 + 0.01 * CL(**kw) ** 2
+
+    def Cm(**kw):
+        return cm0 + 0.01 * kw.get("alpha", 0.0) + 0.0 * CL(**kw)
+    return {"type": "functional", "CL": CL, "CD": CD, "Cm": Cm, "geometry": {"NACA": "0010"}}
+
+
 def rand_wing(rng, hist):
     nst = rng.randint(2, 4)
     afs = gen.gen_airfoils(rng, nst, hist)
+    if rng.random() < 0.35:
+        afs = {k: functional_airfoil(rng) for k in afs}
+        if hist is not None:
+            hist["airfoil_type=functional"] = hist.get("airfoil_type=functional", 0) + 1
     names = list(afs)
     N = rng.randint(3, 8)
     grid = gen.gen_grid(rng, hist, N=N, reid=False)
@@ -66,7 +88,9 @@ def run(chk):
             cases.append("chk_slices %s %s %s %s" % (cbool(left), flist(cps), flist(spans), sl))
             descr.append(dict(what="slices", side=seg.side, cps=cps, spans=spans))
             for fn in FUNCS:
-                got = np.array(seg._get_control_point_coef(alpha if fn != "get_aL0" else np.zeros(N), Re, M, fn), dtype=float)
+                # through the public per-control-point getter (get_cp_CL, ..., get_cp_CLM; get_cp_aL0 takes no alpha)
+                pub = getattr(seg, "get_cp_" + fn[4:])
+                got = np.array(pub(Re, M) if fn == "get_aL0" else pub(alpha, Re, M), dtype=float) * np.ones(N)
                 vals = []
                 for k, af in enumerate(seg._airfoils):
                     v = getattr(af, fn)(alpha=alpha if fn != "get_aL0" else np.zeros(N), Rey=Re, Mach=M, trailing_flap_deflection=seg._delta_flap,
